@@ -439,4 +439,29 @@ func runGoldens(c *mon.Ctx, report func(cqlgen.Case, *cqlgen.Failure)) {
 		}
 	}
 	c.Set("golden_vectors", len(gs))
+
+	// A protocol-v2 collection has a [short] count: 65536 elements cannot be expressed, so Encode
+	// must refuse (any bytes it returned would not be the specification's format).
+	for _, kind := range []string{"list", "set", "map"} {
+		t, v, rep := cqlgen.LargeCollection(kind, 65536)
+		cs := cqlgen.Case{Index: -1000, Origin: "v2-count-overflow", Type: t, Value: v, Repr: rep, Version: cqlref.V2}
+		c.Eval(1)
+		c.Distinct("v2-count-overflow|" + t.String())
+		if _, err := cqlref.Serialize(t, v, cqlref.V2); err == nil {
+			c.Fatal("reference serializer accepts 65536 elements in protocol v2")
+		}
+		codec, _, err := cqlgen.Codec(t)
+		if err != nil {
+			c.Fatal("codec: %v", err)
+		}
+		src, err := cqlgen.Build(rep, t, v)
+		if err != nil {
+			c.Fatal("build: %v", err)
+		}
+		b, err, pan := cqlgen.SafeEncode(codec, src.Interface(), cqlref.V2)
+		if pan != "" || err == nil {
+			report(cs, &cqlgen.Failure{Stage: "encode", Key: t.Shallow() + "/encode/v2,len=65536-not-refused/" + rep.Class(),
+				Msg: fmt.Sprintf("Encode of 65536 elements with protocol v2 must return an error (the [short] count cannot hold it): err=%v panic=%q", err, pan), LibHex: cqlgen.Hex(b)})
+		}
+	}
 }
